@@ -399,8 +399,8 @@ func (cr *checkRun) vacuityGuard(groups []*oblGroup) {
 				cands = append(cands, o)
 			}
 		}
-		if len(cands) == 0 {
-			continue // discharged by simplification on every path
+		if len(cands) < len(g.Insts) {
+			continue // on some path the goal is true by simplification alone: valid whatever the assumptions
 		}
 		wg.Add(1)
 		go func(g *oblGroup, cands []*Obligation) {
@@ -498,7 +498,19 @@ func runCheck(prop, tier string, writeBaseline, verbose bool, t0 time.Time) int 
 	if writeBaseline {
 		be := &BaselineEntry{}
 		for _, g := range groups {
-			if g.Status == "discharged" && g.Ms < int64(cr.timeoutMs)/5*int64(len(g.Insts)) {
+			slow := false
+			for _, o := range g.Insts {
+				lim := int64(cr.timeoutMs) / 5
+				if o.Q != nil && o.Q.Cheap {
+					lim = 300 // cheap kinds get one attempt of 1.5 s on the full query
+				}
+				if o.Res != nil && (o.Res.Ms >= lim || strings.HasSuffix(o.Res.Solver, "(short)")) {
+					// a query close to the time limit, or a cheap-kind obligation that needed quantifier
+					// instantiation within its single short attempt, is an unstable one: not claimed
+					slow = true
+				}
+			}
+			if g.Status == "discharged" && !slow {
 				be.Claimed = append(be.Claimed, g.Name)
 			} else {
 				be.Unclaimed = append(be.Unclaimed, g.Name+" ["+g.Status+"]")
